@@ -59,6 +59,26 @@ class ShapeClass:
     def is_axis(self, t):
         return t.op == "arg" and t.get("name") in self.axis_names
 
+    def _option_array(self, t):
+        """name of the array-valued option (a parameter other than the reduced argument, the axis and the flags) a
+        term is, looking through conj / astype / asarray; None otherwise"""
+        for _ in range(4):
+            if t.op == "seq":
+                t = t.value
+            elif t.op == "call" and (t.args or t.fn.op == "attr"):
+                r, _p = resolve_callee(self.ev, t)
+                if r is not None and is_numpy_callable(r) and base_name(r) in ("asarray", "array", "conj", "logical_not", "invert", "astype", "_astype"):
+                    t = t.args[0]
+                elif t.fn.op == "attr" and t.fn.name in ("astype", "conj", "copy"):
+                    t = t.fn.obj
+                else:
+                    return None
+            else:
+                break
+        if t.op == "arg" and isinstance(t.get("index"), int) and t.index != 0 and t.get("name") in ("where", "weights", "mask"):
+            return t.name
+        return None
+
     def is_scalar_test(self, c):
         """(polarity) when the condition says that the reduced argument is a 0-d value: isscalar(x), ndim(x) == 0,
         shape(x) == ()"""
@@ -195,6 +215,15 @@ class ShapeClass:
                 src = self.of(args[0], none)
                 kd = t.kw.get("keepdims")
                 ax = t.kw.get("axis") or (args[1] if len(args) > 1 and bn != "linalg.norm" else (args[2] if len(args) > 2 else None))
+                if ax is not None and self.is_axis(ax) and src == "S" and self._option_array(args[0]) is not None:
+                    # the primitive's axis numbers the axes of the REDUCED ARGUMENT: applied to another array - a
+                    # mask / weight option that NumPy broadcasts against the argument - it addresses other axes (or
+                    # size-1 ones) whenever that array has not been brought to the argument's shape first
+                    txt = norm_text(t.node) if t.node is not None else "?"
+                    nm = self._option_array(args[0])
+                    if txt not in [h[0] for h in self.hazards]:
+                        self.hazards.append((txt, t.line, f"`{txt[:60]}` reduces the option `{nm}` over the primitive's axis although `{nm}` is only broadcastable against the reduced argument (fewer dimensions, size-1 axes): the axis numbers refer to the argument's shape"))
+                    return "T"
                 if kd is not None and kd.op == "const" and kd.value is True:
                     return src if src in ("F", "S") else "T"
                 if ax is None or (ax.op == "const" and ax.value is None):
@@ -202,6 +231,8 @@ class ShapeClass:
                 if src == "F" and self.is_axis(ax):
                     return "S" if none else "R"
                 return "T"
+            if bn == "broadcast_to" and len(args) >= 2:
+                return "F"  # (the target is checked by A3.vjp-style rules; here: no longer a bare option)
             if bn == "expand_dims" and args:
                 return "F" if self.of(args[0], none) in ("R", "F") else "T"
             if bn in REINDEX and args:
@@ -228,7 +259,7 @@ class ShapeClass:
 
 
 def reductions(ctx, world, modes=("vjp", "jvp")):
-    ctx.describe("A3.reduce", "in the VJP/JVP rules of axis reductions (sum, mean, prod, var, std, max/min/amax/amin, linalg.norm) no elementwise operation combines a definitely full-shaped operand with a definitely reduced-shaped one; reduced values reach full shape only through expand_dims / repeat_to_match_shape / keepdims=True (or are scalars under `axis is None`)")
+    ctx.describe("A3.reduce", "in the VJP/JVP rules of axis reductions (sum, mean, prod, var, std, max/min/amax/amin, linalg.norm) no elementwise operation combines a definitely full-shaped operand with a definitely reduced-shaped one; reduced values reach full shape only through expand_dims / repeat_to_match_shape / keepdims=True (or are scalars under `axis is None`); the primitive's axis is applied only to arrays of the argument's shape - never to a mask / weight option (where=, weights=) that is merely broadcastable against it")
     fx = set(facts.load("axis_params")["names"])
     n = 0
     for e in world.table.entries:
@@ -259,7 +290,11 @@ def reductions(ctx, world, modes=("vjp", "jvp")):
             continue
         fnode = ir.maker.fnode if ir.maker is not None else None
         owner = getattr(fnode, "name", None) or e.prim_id
-        for txt, line in S.hazards:
+        for hz in S.hazards:
+            txt, line = hz[0], hz[1]
+            if len(hz) > 2:
+                ctx.fail("A3.reduce", inst + "|" + txt[:60], f"{e.mode}:{owner}|option-reduced|{txt[:80]}", f"{e.mod.relpath}:{line}", hz[2], "the reduction called with a mask / weight that is broadcast along a reduced axis (shape (3,) against (4, 3) with axis=0 or None; shape (4, 1) against (2, 4, 3) with axis=1)")
+                continue
             ctx.fail(
                 "A3.reduce",
                 inst + "|" + txt[:60],
@@ -356,3 +391,49 @@ def stacked_batches(ctx, world, modes=("vjp", "jvp")):
             txt = norm_text(bad[0].node) if bad[0].node is not None else str(bad[0])
             ctx.fail("A3.batch", inst, f"{e.mode}:{e.prim_id}|batch:{txt[:60]}", e.loc, f"`{txt[:80]}`: {bad[1]}", f"{base_name(e.prim)} of a stack of matrices, shape (k, n, n) with k > 1: exact for a single matrix, wrong for every member of the stack")
     ctx.floor(f"A3.batch rules of stacked-matrix functions ({'+'.join(modes)})", n, 8 if "vjp" in modes else 0)
+
+
+def axis_loops_fold(ctx, world, modes=("vjp", "jvp")):
+    """A3.fold - a rule that walks over the axes it was given (`for ax in axis`, `for ax, rep in enumerate(reps)`) to
+    compute one quantity for the whole reduction - the number of reduced elements, a shape, the cotangent itself - has
+    to COMBINE the per-axis values: each iteration reads the value carried from the previous one.  A loop whose body
+    overwrites the carried variable without reading it yields the LAST axis' value only (`num_reps = shape[ax]` for
+    `num_reps *= shape[ax]`): right for a single axis, wrong for every axis tuple."""
+    from ..terms import children, walk
+    from ..tutil import expand
+
+    ctx.describe("A3.fold", "in a rule, a loop over a collection derived from an axis parameter carries its state: the value of an iteration is computed from the value of the previous one (accumulation); a loop whose step ignores the carried value returns the last axis' contribution only")
+    names = set(facts.load("axis_params")["names"])
+    n = n_rules = 0
+    for e in world.table.entries:
+        if e.spec != "maker" or e.mode not in modes or not world.in_numpy_scope(e):
+            continue
+        ir = world.ir(e)
+        if ir is None or not ir.ok:
+            continue
+        n_rules += 1
+        seen = set()
+        for root in (ir.made, ir.result):
+            if root is None:
+                continue
+            for t in walk(expand(world.ev, root, ())):
+                if t.op != "loop" or id(t) in seen:
+                    continue
+                seen.add(id(t))
+                ch = children(t)
+                step = ch[1:]
+                srcs = [x.src for c in step for x in walk(c) if x.op == "iterelem"]
+                if not any(a.op == "arg" and a.get("name") in names for s_ in srcs for a in walk(s_)):
+                    continue
+                n += 1
+                txt = (norm_text(t.node) if t.node is not None else str(t))[:60]
+                inst = f"{construct_of(e)}|{txt}"
+                if any(x.op == "loopvar" for c in step for x in walk(c)):
+                    ctx.ob("A3.fold", inst, True, e.loc)
+                else:
+                    ctx.fail("A3.fold", inst, f"{e.mode}:{e.prim_id}|last-axis-only", e.loc, f"the loop `{txt}` over the given axes overwrites its result in every iteration without reading the previous value: the rule uses the contribution of the LAST axis only", "the same call with a tuple of two or more axes (axis=(0, 1)): the quantity must combine all of them")
+    # (how many loops a tree has is a matter of style - a comprehension or reduce() is the same computation in another
+    # normal form - so the floor is on the rules searched, not on the loops found; the matcher itself is exercised by the
+    # self-test mutant `mean-count-from-the-last-axis-only` and its benign twin)
+    ctx.ob("A3.fold", f"{n} loop(s) over axis collections in {n_rules} {'+'.join(modes)} rules", True, "autograd/numpy/*", nontrivial=n > 0)
+    ctx.floor(f"A3.fold rules searched ({'+'.join(modes)})", n_rules, (150 if "vjp" in modes else 0) + (50 if "jvp" in modes else 0))
